@@ -12,8 +12,8 @@ def _c16_case(c):
 
 CONFIG = {
     "properties_file": "Properties/C16.v",
-    "proof_files": ["Base/Prelude.v", "Proofs/Scopes.v", "Proofs/ScopesIdem.v", "Proofs/AuthClient.v", "Proofs/AuthHistory.v", "Proofs/Once.v"],
-    "model_files": ["Generated/GC16.v", "Model/Scopes.v", "Model/Challenge.v", "Model/AuthClient.v", "Model/Once.v"],
+    "proof_files": ["Base/Prelude.v", "Proofs/Scopes.v", "Proofs/ScopesIdem.v", "Proofs/AuthClient.v", "Proofs/AuthHistory.v", "Proofs/Once.v", "Proofs/CacheSet.v"],
+    "model_files": ["Generated/GC16.v", "Model/Scopes.v", "Model/Challenge.v", "Model/AuthClient.v", "Model/Once.v", "Model/CacheSet.v"],
     "extract": "XC16.v",
     "ml_main": "c16_main.ml",
     "harness": "c16",
@@ -26,7 +26,7 @@ CONFIG = {
         "strconv.QuotedPrefix/Unquote is modelled for quoted strings without backslash and without bytes >= 0x80 (other headers are UNJUDGED in the correspondence and outside C16_no_cross_host only through parse_challenge, which the theorems treat as an arbitrary function of the header)",
         "encoding/json, encoding/base64, net/url query/form encoding of the token requests are observed by the harness (decoded on the fake token server) but not modelled",
         "syncutil.Once: the Go select/channel semantics are the LTS of Model/Once.v (buffered-1 channel holding true / empty / closed); runtime scheduling is quantified over as arbitrary interleavings of the visible events; panics inside f are not modelled",
-        "concurrentCache under concurrency (sync.Map, status map deletion) is exercised by the harness oracle only; the cache theorems are sequential",
+        "concurrentCache.Set under concurrency is the transition system of Model/CacheSet.v (status map, Once instances, results; status.Delete over-approximated); it is tied to the code by the harness oracle (set-cross-key) only, not by a trace correspondence: sync.Map internals are not observable without editing cache.go",
     ],
     "level_text": "Coq theorems: CleanScopes is sorted, duplicate-free, idempotent, depends only on the set of its input (order/duplication/map-iteration-order insensitive) and '*' absorbs, for all byte strings; over every history of Client.Do calls with any cache flavour, credential table and server behaviour every send goes to the request's host or to a realm that host advertised and carries only that host's secrets, a Basic header reaches a host only after its Basic challenge, the cache stays host-tainted; <= 3 registry sends and <= 1 token fetch per call with a complete classification of non-success outcomes (valid credentials => the registry's non-401 answer); cache-key laws for the shared and the single-context cache; syncutil.Once as an LTS: one published result shared by all receivers, one fetch in flight, hand-over on cancellation",
     "level_note": "two defects fixed in CleanScopes (duplicates of unparsable scopes; single-scope fast path disagreeing with the general path); the concurrent use of the cache and the Go runtime are exercised, not proved; strconv.Unquote escapes are outside the challenge model",
